@@ -82,7 +82,7 @@ HandleF(c, s, ft, fd, resume, ended) ==
          IF ~c.client THEN Er("H3_FRAME_UNEXPECTED")
          ELSE IF resume THEN Ok(s, <<Pev(s.sid, s.bblk, s.bpid)>> \o EndOnly)   \* DESIGN
          ELSE LET v == VarintAt(fd, 0) IN
-           IF ~v.ok THEN Er("RAISED")
+           IF ~v.ok THEN Er("H3_FRAME_ERROR")          \* no push id in the frame
            ELSE LET blk == Slice(fd, v.next, Len(fd)) IN
              IF ~Avail(blk, EncOk(c))
              THEN Bl([s EXCEPT !.blocked = TRUE, !.bkind = PUSH_PROMISE, !.bpid = v.val, !.bblk = blk])
